@@ -74,7 +74,7 @@ class XGBoost(GBDT):
         if stype.embedding in tf.feat_dict:
             feat = tf.feat_dict[stype.embedding]
             feat = feat.values
-            feat = feat.view(feat.size(0), -1)
+            feat = feat.reshape(feat.size(0), feat.size(1))
             feats.append(feat)
             types.extend(['q'] * feat.size(-1))
 
